@@ -7,6 +7,7 @@ arbitrary `junk`, so no observation can depend on it.
 import Cntgs.FixProofs
 import Cntgs.World
 import Cntgs.Props.C01
+import Cntgs.VarRelocProofs
 namespace Cntgs.C18
 
 /-- what C18 lists for an empty vector: size() == 0, empty(), begin() == end() (no element to read),
@@ -116,6 +117,35 @@ theorem usable_afterwards_partial {v : Vec} (h : VarInv v []) (ht : v.trivialRel
     (ops : List VOp) (hv : Valid v.ps [] ops) :
     (ops.foldl (VOp.apply junk) v).abs = (ops.foldl VOp.spec []).map some :=
   (h.history ht junk ops hv).abs_eq
+
+/-- emptied by any history, **all value types** (offset-table locator): as `emptied_offset_table_partial`, for every history
+    whose erases relocate no element onto its own live objects (the complement is the known finding of C06) -/
+theorem emptied_offset_table_all_types (ps : List Param) (fs : List Nat) (cap bytes : Nat) (junk : Nat → Nat)
+    (hl : ListOK ps) (hnf : isFixedOrPlain ps = false)
+    (ops : List VOp) (hv : ValidNoOverlap ps [] ops) (hempty : ops.foldl VOp.spec [] = []) :
+    EmptyObs (ops.foldl (VOp.apply junk) (Vec.new ps fs cap bytes junk)) := by
+  have h := (VarInv.new ps fs cap bytes junk hl hnf).history_all junk ops hv
+  rw [hempty] at h
+  exact empty_offset_table h
+
+/-- observations never depend on the junk in fresh bookkeeping memory, all value types -/
+theorem junk_independent_all_types (ps : List Param) (fs : List Nat) (cap bytes : Nat) (junk1 junk2 : Nat → Nat)
+    (hl : ListOK ps) (hnf : isFixedOrPlain ps = false) (ops : List VOp) (hv : ValidNoOverlap ps [] ops) :
+    C01.obs (ops.foldl (VOp.apply junk1) (Vec.new ps fs cap bytes junk1)) =
+    C01.obs (ops.foldl (VOp.apply junk2) (Vec.new ps fs cap bytes junk2)) := by
+  rw [(C01.history_offset_table_no_overlap ps fs cap bytes junk1 hl hnf ops hv).1,
+      (C01.history_offset_table_no_overlap ps fs cap bytes junk2 hl hnf ops hv).1]
+
+/-- after reserve / emplace_back an empty vector — however it became empty — behaves like any other, all value types -/
+theorem usable_afterwards_all_types {v : Vec} (h : VarInv v []) (junk : Nat → Nat)
+    (ops : List VOp) (hv : ValidNoOverlap v.ps [] ops) :
+    (ops.foldl (VOp.apply junk) v).abs = (ops.foldl VOp.spec []).map some :=
+  (h.history_all junk ops hv).abs_eq
+
+theorem usable_afterwards_stride {v : Vec} (h : FixInv v []) (junk : Nat → Nat)
+    (ops : List VOp) (hv : ValidFix v.ps v.loc.stride [] ops) :
+    (ops.foldl (VOp.apply junk) v).abs = (ops.foldl VOp.spec []).map some :=
+  (h.history_all junk ops hv).abs_eq
 
 /-- copying, swapping and destroying an empty or default-constructed vector is defined on the multi-vector level: a
     default-constructed vector owns nothing, so destroying it frees nothing and reports no ledger error -/
